@@ -102,6 +102,17 @@ def check_selections(cx, facts, rep):
             # the duplicate check must share the assignment's guards (same marked branch)
             dup = [x for x in dup if set(c.key() for c in a.ctx if not c.get('prior')) <= set(c.key() for c in x[2].ctx)]
             if not dup:
+                # the same check as one `match sel { None => sel = Some(..), Some(_) => return Err(..) }`
+                arm_none = [c for c in a.ctx if c['k'] == 'arm' and es(c['scrut']).replace(' ', '').lstrip('&') == d.name and pat_s(c['pat']) == 'None' and c.get('narms') == 2]
+                if arm_none:
+                    mid_ = arm_none[-1]['match_id']
+                    rest_a = set(c.key() for c in a.ctx if not c.get('prior') and c is not arm_none[-1])
+                    for ev in fw.events:
+                        if ev.kind == 'exit' and ev.how == 'return' and isinstance(ret_value_kind(ev), tuple):
+                            arms_ = [c for c in ev.ctx if c['k'] == 'arm' and c.get('match_id') == mid_ and pat_s(c['pat']).startswith('Some(')]
+                            if arms_ and rest_a <= set(c.key() for c in ev.ctx if c is not arms_[-1]):
+                                dup.append(('err', ret_value_kind(ev)[1], ev))
+            if not dup:
                 rep.bad('SEL', where, inst0 + '-duplicate',
                         'a second designated item is not rejected before it replaces the first (no `if %s.is_some() { return Err(..) }` in the marked branch)' % d.name, fn.file, a.line)
                 good = False
@@ -224,7 +235,34 @@ def check_shape(cx, facts, rep):
             rep.ok('SHAPE', '%s|%s' % (fn.qname, ctor))
         else:
             rep.bad('SHAPE', fn.qname, ctor, 'Debug with nothing to print and no name is not refused (%s under `name is None`)' % ctor, fn.file, fn.line)
+    check_need_name_siblings(cx, facts, rep)
     rep.floor('SHAPE', 12)
+
+
+def check_need_name_siblings(cx, facts, rep):
+    """the arms of the Debug enum handler (unit / tuple / struct-like variants) refuse "nothing to show and no name" under the same
+    notion of name: the `is none` subject of every such refusal is one and the same value (the effective name handed to the builder),
+    not the raw variant-level parameter in one arm and the composed name in another"""
+    fn = handler_of(cx, 'Debug', 'enum')
+    if fn is None:
+        return
+    fw = cx.fw(fn)
+    tm = cx.gm.terms_of(fw)
+    subjects = {}
+    for ev in fw.events:
+        if ev.kind == 'exit' and ev.how == 'return' and any(c_ in es(ev.value or {}) for c_ in ('unit_struct_need_name', 'unit_variant_need_name')):
+            at = facts.atoms(ev.ctx, fw)
+            subs = [a[1] for a in at if a[0] == 'some' and a[2] is False]
+            for x in subs:
+                subjects.setdefault(x, []).append(ev)
+    if len(subjects) > 1:
+        # the odd one out is the subject used least
+        odd = sorted(subjects.items(), key=lambda kv: len(kv[1]))[0]
+        from ..terms import term_s
+        rep.bad('SHAPE', fn.qname, 'need-name-siblings', 'the "nothing to show and no name" refusals of the variant kinds test different values for the missing name (%s): '
+                'one kind of variant is refused (or accepted) where its siblings are not' % ' / '.join(sorted(term_s(k, 40) for k in subjects)), fn.file, odd[1][0].line)
+    elif subjects:
+        rep.ok('SHAPE', fn.qname + '|need-name refusals agree on the name tested', {'refusals': sum(len(v) for v in subjects.values())})
 
 
 def check_unsafe_parser(cx, rep):
